@@ -305,6 +305,7 @@ fn builder_clause(ev: &mut Ev) {
     }
     // long axes with a single defect (tie / swapped pair / NaN) at EVERY position: a validation
     // that works block-wise (or samples) and skips a pair lets such an axis through
+    let mut long_id = 7_600_000u64;
     for &n in &[512usize, 513, 768, 1025] {
         let good = Array1::from((0..n).map(|i| i as f64).collect::<Vec<_>>());
         let d1 = Array1::<f64>::zeros(n);
@@ -323,7 +324,8 @@ fn builder_clause(ev: &mut Ev) {
                     _ => v[pos] = f64::NAN,
                 }
                 let what = ["tie", "swapped pair", "NaN"][defect];
-                let id = 7_600_000 + (n * 4 + defect) as u64 * 2048 + pos as u64;
+                long_id += 1;
+                let id = long_id;
                 ev.add("builder_clause_long_axes", 1);
                 verdict(format!("Interp1D axis of {n} knots, {what} at {pos} (owned)"), guard(|| Interp1D::builder(d1.view()).x(v.clone()).build().is_ok()), false, ev, id);
                 verdict(format!("Interp1D axis of {n} knots, {what} at {pos} (view)"), guard(|| Interp1D::builder(d1.view()).x(v.view()).build().is_ok()), false, ev, id);
